@@ -165,9 +165,11 @@ Fixpoint lstrip_int (s : str) : str :=
 Definition strip_int (s : str) : str := rev (lstrip_int (rev (lstrip_int s))).
 Definition py_int (s : str) : option Z :=
   match strip_int s with
-  | 43 :: r => int_body 0 false r
-  | 45 :: r => match int_body 0 false r with Some v => Some (- v) | None => None end
-  | r => int_body 0 false r
+  | [] => None
+  | c :: r =>
+    if c =? 43 then int_body 0 false r
+    else if c =? 45 then match int_body 0 false r with Some v => Some (- v) | None => None end
+    else int_body 0 false (c :: r)
   end.
 
 (* ---- str(int), '{:+d}', fixed-width fields ---- *)
